@@ -73,6 +73,55 @@ Theorem C11_multipart_iff_upload : forall t p files fmap,
 Proof. exact files_empty_iff. Qed.
 Print Assumptions C11_multipart_iff_upload.
 
+(* ---- the multipart map as a bijection: the file parts (name, Upload) pair every distinct Upload object
+   with exactly one part and every part name with exactly one Upload (decimal names are injective:
+   nat_to_string_inj), parts carry only Uploads of the tree, and the part names are the keys of the map, in
+   the same order — so map key i <-> part i <-> i-th distinct Upload <-> all its paths (C11_map_entries) ---- *)
+Theorem C11_parts_bijection : forall ups files, NoDup files ->
+  (forall id, In id files -> exists name, In (name, id) (files_parts files) /\
+      forall name', In (name', id) (files_parts files) -> name' = name) /\
+  (forall name id id', In (name, id) (files_parts files) -> In (name, id') (files_parts files) -> id = id') /\
+  (forall name id, In (name, id) (files_parts files) -> In id files) /\
+  map fst (files_parts files) = map (fun e => nat_to_string (fst e)) (expected_map ups files 0).
+Proof. exact parts_bijection. Qed.
+Print Assumptions C11_parts_bijection.
+
+(* ---- type-directed dumping of generated input models.  pydantic serialises a field by the serializer of
+   its DECLARED type (dumpt); only Any fields go by the runtime type (dumpv, on which every theorem above is
+   stated).  For every declared type (Upload, Optional, List, nested inputs, unrolled to any depth) and every
+   value the two coincide as long as the Upload class is serialised as itself — so no Upload below an
+   annotated field is lost and all theorems above apply to typed input models.  The dependency is exact: a
+   serializer that does not return the Upload (seeded change C11-7: `lambda _upload: None`) loses it. ---- *)
+Theorem C11_typed_dump_agrees : forall ser, (forall id, ser id = VUpload id) ->
+  forall a v, dumpt ser a v = dumpv v.
+Proof. exact dumpt_agrees_gen. Qed.
+Print Assumptions C11_typed_dump_agrees.
+
+Theorem C11_typed_dump_keeps_uploads : forall a v p,
+  map snd (uploads_at p (dumpt ser_upload a v)) = deep_ids v.
+Proof. exact dumpt_keeps_uploads. Qed.
+Print Assumptions C11_typed_dump_keeps_uploads.
+
+Definition doc_ann (parent : fann) : fann :=
+  FModel [("file", FUpload); ("files", FOpt (FList FUpload)); ("backup", FOpt FUpload); ("title", FOpt FLeaf);
+          ("parent", FOpt parent); ("children", FOpt (FList parent))].
+Definition doc_val (file : nat) (parent : vt) : vt :=
+  VModel [(mk_mfield "file" None true, VUpload file);
+          (mk_mfield "files" None true, VList [VUpload 7; VUpload file]);
+          (mk_mfield "backup" (Some "backupFile") true, VLeaf JNull);
+          (mk_mfield "title" None false, VLeaf JNull);
+          (mk_mfield "parent" None true, parent);
+          (mk_mfield "children" None false, VLeaf JNull)].
+Example C11_typed_dump_example :
+  dumpt ser_upload (doc_ann (doc_ann FAny)) (doc_val 1 (doc_val 2 (VLeaf JNull))) =
+  VDict [("file", VUpload 1); ("files", VList [VUpload 7; VUpload 1]); ("backupFile", VLeaf JNull);
+         ("parent", VDict [("file", VUpload 2); ("files", VList [VUpload 7; VUpload 2]);
+                           ("backupFile", VLeaf JNull); ("parent", VLeaf JNull)])] /\
+  (* the seeded serializer: every annotated Upload becomes None, nothing is left to extract *)
+  uploads_at [] (dumpt (fun _ => VLeaf JNull) (doc_ann (doc_ann FAny)) (doc_val 1 (doc_val 2 (VLeaf JNull)))) = [] /\
+  deep_ids (doc_val 1 (doc_val 2 (VLeaf JNull))) = [1; 7; 1; 2; 7; 2].
+Proof. vm_compute. repeat split. Qed.
+
 (* ---- headers (merge of /repo 7378d1f; finding F20 fixed, guard deleted) ---- *)
 (* the caller's value wins for every header he supplies, whatever its letter case: on the wire
    (names case-insensitive) that name carries exactly his value.  Hypotheses: the caller's dict has
